@@ -1248,11 +1248,16 @@ pub fn resolve<'a>(
             }
         }
     }
-    if resolver.lookup_global(0, "start").is_none() {
-        raise_resolution_error! {
-            resolver,
-            Span::zero(0),
-            "Expected a start function in the main module - but couldn't find it"
+    // The entry point is a variable of the main module itself - not a namespace that happens
+    // to be called `start`, and not some other module's `start`.
+    match resolver.lookup_global(0, "start") {
+        Some(Name::Name(var)) if resolver.variables[*var].definition.file_id == 0 => {}
+        _ => {
+            raise_resolution_error! {
+                resolver,
+                Span::zero(0),
+                "Expected a start function in the main module - but couldn't find it"
+            }
         }
     }
     Ok((resolver.variables, out))
